@@ -1,0 +1,37 @@
+//go:build verif
+
+package p2pkeswarm
+
+import (
+	"sort"
+	"time"
+
+	"go.brendoncarroll.net/p2p/p/p2pke"
+)
+
+// VerifEntry is a read-only projection of one entry of the channel store.
+// It is only compiled with the verif build tag.
+type VerifEntry struct {
+	// Key is the store key: the marshalled transport address.
+	Key string
+	// Channel is the stored channel (identity and p2pke.VerifSnapshot are what the harness looks at).
+	Channel   *p2pke.Channel
+	CreatedAt time.Time
+}
+
+// VerifStore returns the entries of the channel store, sorted by key, taken under the store's lock.
+func (s *Swarm[T]) VerifStore() []VerifEntry {
+	s.store.mu.RLock()
+	defer s.store.mu.RUnlock()
+	ret := make([]VerifEntry, 0, len(s.store.m))
+	for k, v := range s.store.m {
+		ret = append(ret, VerifEntry{Key: k, Channel: v.Channel, CreatedAt: v.CreatedAt})
+	}
+	sort.Slice(ret, func(i, j int) bool { return ret[i].Key < ret[j].Key })
+	return ret
+}
+
+// VerifClosed reports whether the swarm's background context has ended (Close was called).
+func (s *Swarm[T]) VerifClosed() bool {
+	return s.ctx.Err() != nil
+}
